@@ -62,6 +62,9 @@ instance decLCmdTail : (c : Cmd) → (tail : List Nat) → Decidable (LCmdTail c
   | .simple _ (some n), tail => inferInstanceAs (Decidable (NumEnd (numBase n) tail))
   | .simple s none, tail => inferInstanceAs (Decidable (optTail (evClass s) tail))
   | .drum n, tail => inferInstanceAs (Decidable (NumEnd (numBase n) tail))
+  | .revRest d, tail => inferInstanceAs (Decidable (DurTail d tail))
+  | .grace _ a d, tail => inferInstanceAs (Decidable (DurTail d tail ∧
+      (a = .none → (d.bytes ++ tail).head? ≠ some 43 ∧ (d.bytes ++ tail).head? ≠ some 45 ∧ (d.bytes ++ tail).head? ≠ some 61)))
   | .note l a d, tail => decCmdTail (.note l a d) tail
   | .rest d, tail => decCmdTail (.rest d) tail
   | .tie d, tail => decCmdTail (.tie d) tail
@@ -71,7 +74,7 @@ instance decLCmdTail : (c : Cmd) → (tail : List Nat) → Decidable (LCmdTail c
   | .early n, tail => decCmdTail (.early n) tail
   | .measure n, tail => decCmdTail (.measure n) tail
   | .shuffle n, tail => decCmdTail (.shuffle n) tail
-  | .slur, _ | .octUp, _ | .octDown, _ | .revRest _, _ | .grace _ _ _, _ | .echoSet _ _, _ | .echo _, _ | .keyScale _, _
+  | .slur, _ | .octUp, _ | .octDown, _ | .echoSet _ _, _ | .echo _, _ | .keyScale _, _
   | .keyMod _, _ | .bar, _ => isTrue trivial
 
 instance decCovSimple : (o : Option EvClass) → (n : Option Num) → Decidable (covSimple o n)
@@ -87,15 +90,19 @@ instance decCovSimple : (o : Option EvClass) → (n : Option Num) → Decidable 
 instance decLCovered : (c : Cmd) → Decidable (LCovered c)
   | .simple s n => inferInstanceAs (Decidable (covSimple (evClass s) n))
   | .drum _ => isTrue trivial
+  | .revRest _ => isTrue trivial
+  | .grace l _ _ => inferInstanceAs (Decidable (l < 8))
   | .note l _ _ => inferInstanceAs (Decidable (l < 8))
   | .rest _ | .tie _ | .length _ | .octave _ | .octUp | .octDown | .quantize _ | .early _
   | .measure _ | .shuffle _ | .slur => isTrue trivial
-  | .revRest _ | .grace _ _ _ | .echoSet _ _ | .echo _ | .keyScale _ | .keyMod _ | .bar => isFalse (fun h => h)
+  | .echoSet _ _ | .echo _ | .keyScale _ | .keyMod _ | .bar => isFalse (fun h => h)
 
 instance decLCmdNums (t : Track) : (c : Cmd) → Decidable (LCmdNums t c)
   | .simple _ (some n) => inferInstanceAs (Decidable (NumRange n))
   | .simple _ none => isTrue trivial
   | .drum n => inferInstanceAs (Decidable (NumRange n))
+  | .revRest d => inferInstanceAs (Decidable (DurNums d ∧ (t.reverseRest (UInt16.ofNat (durVal t d).toNat)).2 = .done))
+  | .grace _ _ d => inferInstanceAs (Decidable (DurNums d ∧ (t.reverseRest (UInt16.ofNat (durVal t d).toNat)).2 = .done))
   | .note _ _ d => inferInstanceAs (Decidable (DurNums d))
   | .rest d => inferInstanceAs (Decidable (DurNums d))
   | .tie d => inferInstanceAs (Decidable (DurNums d))
@@ -106,7 +113,7 @@ instance decLCmdNums (t : Track) : (c : Cmd) → Decidable (LCmdNums t c)
   | .measure n => inferInstanceAs (Decidable (NumRange n))
   | .shuffle n => inferInstanceAs (Decidable (NumRange n))
   | .slur => inferInstanceAs (Decidable (t.addSlur.2 = 0))
-  | .octUp | .octDown | .revRest _ | .grace _ _ _ | .echoSet _ _ | .echo _ | .keyScale _
+  | .octUp | .octDown | .echoSet _ _ | .echo _ | .keyScale _
   | .keyMod _ | .bar => isTrue trivial
 
 instance decCmdsOk : (t : Track) → (cs : List Cmd) → Decidable (CmdsOk t cs)
